@@ -92,7 +92,7 @@ def run_e2e(args):
                             t.join(timeout=10)
                     opens["n"] = 0
                     try:
-                        real_iface, rep_ = ("tf", False) if iface == "tf_norepeat" else (iface, True)
+                        real_iface, rep_ = ("tf", False) if iface == "tf_norepeat" else (("concurrent", True) if iface == "concurrent_none" else (iface, True))
                         got, _ = I.run_iface(ds, real_iface, "train", shuffle=shuffle, T=T, repeat=rep_, take=a["k"])
                         # process_and_list calls iterate_shard: count each shard once
                         n_open = opens["n"] // (2 if real_iface in ("concurrent", "tf") else 1)
@@ -111,7 +111,9 @@ def bound_opens(iface, shuffle, T, k, eps):
     need = math.ceil(k / eps)
     if iface == "sync":
         return math.ceil((k + shuffle + 1) / eps) + 1
-    if iface == "concurrent":
+    if iface in ("concurrent", "concurrent_none"):
+        import os
+        T = T or (os.cpu_count() or 1)
         return need + (3 * T + 3 if shuffle else T) + 1
     if iface == "async":
         return need + (T if shuffle else 0) + 1
@@ -264,6 +266,19 @@ def run(ctx):
         if pulled >= 50:
             ctx.report({"kind": "readahead", "stage": "shuffle_buffer", "nonpositive_buffer": True},
                        f"shuffle_buffer(buffer_size={b}) pulled {pulled}+ elements of an endless source before yielding anything", {"b": b, "trace": log[:20]})
+    # a buffer size of None (what `os.cpu_count()` may return, what a caller passes for "default"): refused or given some finite
+    # meaning — never "no limit": with 200 inner iterables waiting, the first element must not cost opening all of them
+    inners200 = [list(range(i * 2, i * 2 + 2)) for i in range(200)]
+    log, out, err = I.trace_rr(inners200, None, take=1)
+    opened = sum(1 for l in log if l[0] == "open")
+    if not err and opened >= 200:
+        ctx.report({"kind": "readahead", "stage": "round_robin", "buffer_none": True},
+                   f"round_robin(buffer_size=None) opened all {opened} inner iterables before handing out its first element", {"b": None, "opened": opened, "trace": log[:10]})
+    log, out, err = I.trace_sb(0, None, take=1, infinite=True, pull_limit=400)
+    pulled = sum(1 for l in log if l[0] == "pull" and l[1] is not None)
+    if pulled >= 400:
+        ctx.report({"kind": "readahead", "stage": "shuffle_buffer", "buffer_none": True},
+                   f"shuffle_buffer(buffer_size=None) pulled {pulled}+ elements of an endless source before yielding anything", {"b": None, "trace": log[:10]})
     reps = lean.driver(reqs)
     corr_bad = []
     for (kind, b, n, take, log, err), rep in zip(obs, reps):
@@ -313,7 +328,10 @@ def run(ctx):
         cfgs = [("sync", 0, 1), ("sync", 5, 1), ("concurrent", 0, 2), ("concurrent", 3, 2), ("async", 0, 2), ("async", 3, 2),
                 # tf.data over the concurrent generator; file_parallelism=None is an accepted value of as_tfdataset (kept to a
                 # finite pass so that a reader which takes "everything" as one batch terminates)
-                ("tf", 0, 2), ("tf", 3, 2), ("tf_norepeat", 0, None)]
+                ("tf", 0, 2), ("tf", 3, 2), ("tf_norepeat", 0, None),
+                # file_parallelism=None given to the shuffled concurrent interface: refused, or some finite default (the unshuffled branch
+                # is left out: `islice(paths, None)` is documented Python for "everything", and None is outside the declared `int`)
+                ("concurrent_none", 3, None)]
         eargs.append({"root": str(ctx.scratch / f"c14_{i}"), "fmt": fmt, "eps": eps, "k": 7, "sizes": [12, 40] if not ctx.thorough else [12, 40, 160], "configs": cfgs})
     eres = child.call("harness.checks.c14", "run_e2e", eargs, timeout=900)
     nrun = 0
@@ -321,6 +339,8 @@ def run(ctx):
         grp = collections.defaultdict(list)
         for x in r["res"]:
             nrun += 1
+            if "error" in x and x["iface"] == "concurrent_none":
+                continue            # refusing None is fine (it is not an int); running away with it is not
             if "error" in x:
                 ctx.report({"kind": "e2e-error", "iface": x["iface"]}, f"{x['iface']} repeat=True take: {x['error']}", {"case": r["case"], "run": x}); continue
             bd = bound_opens(x["iface"], x["shuffle"], x["T"], r["case"]["k"], r["case"]["eps"])
